@@ -108,6 +108,8 @@ def run(chk, ctx) -> None:
     _pots(chk, ctx)
     _bounds(chk, ctx)
     _helpers(chk, ctx)
+    from .helpers import default_helpers
+    default_helpers(chk, ctx, 'C01.helpers', ['state', 'games', 'notation'])
     _owner(chk, ctx)
     _terminal(chk, ctx)
     _exhaustive_split(chk, ctx)
